@@ -33,7 +33,13 @@ ADDR = "10.0.0.1"
 
 TIMEOUTS = [0.3, 1.0, 5.0, None]
 ERR_ANSWERS = ["unavailable", "overloaded", "read_timeout", "write_timeout", "server_error", "invalid"]
-FAIL_ANSWERS = ["garbage", "protocol", "neglen", "close", "reset", "garbage+next", "protocol+next"]
+FAIL_ANSWERS = ["garbage", "protocol", "protocol-unsupported", "neglen", "close", "reset", "eof", "garbage+next",
+                "protocol+next", "protocol-unsupported+next"]
+# text real servers put into the ERROR 0x000A they answer a frame of a protocol version they do not speak with;
+# the driver looks for this phrase (downgrade during negotiation) -- on an established connection it is a
+# protocol error like any other
+UNSUPPORTED_TEXT = "Invalid or unsupported protocol version (66); supported versions are (3/v3, 4/v4, 5/v5-beta)"
+KEYSPACES = ["ks1", "ks2"]
 
 
 class PoolClock(VTime):
@@ -158,7 +164,9 @@ class Machine(object):
         self.session_down = False
         self.observers = []
         self.counts = dict(sent=0, answered=0, late=0, timeouts=0, kills=0, exhausted=0, reuse=0, replaced=0,
-                           trashed=0, dead_borrows=0, failures=0, renew=0, blocked_sends=0, dropped=0)
+                           trashed=0, dead_borrows=0, failures=0, renew=0, blocked_sends=0, dropped=0, eof=0, unsupported=0,
+                           use=0, use_same=0)
+        self.injected = []        # (connection, kind) of every failure the history injected
         self.fail_points = []     # filled by the conn failure hook: snapshots with by == defunct/close paths
         self.hb_drop = False
         self.cp_sessions = []     # (conn, stream, session, log)
@@ -457,14 +465,27 @@ class Machine(object):
             self.counts["dropped"] += 1
         elif kind in ("close", "reset"):
             self.counts["failures"] += 1
+            self.injected.append((conn, kind))
             U.answer(node, conn, req, kind)
-        elif kind in ("garbage", "protocol", "neglen", "garbage+next", "protocol+next"):
+        elif kind == "eof":
             self.counts["failures"] += 1
+            self.counts["eof"] += 1
+            self.injected.append((conn, kind))
+            self.net.server_close(conn, eof=True)
+        elif kind.split("+")[0] in ("garbage", "protocol", "protocol-unsupported", "neglen"):
+            self.counts["failures"] += 1
+            # a body is only decoded when a handler is registered for its stream (a response to an orphaned
+            # stream is discarded unread); a negative length is seen in the header whoever the stream belongs to
+            if kind.startswith("neglen") or req["stream"] in conn._requests:
+                self.injected.append((conn, kind))
             base = kind.split("+")[0]
             if base == "garbage":
                 fr = self._frame(conn, req, "RESULT", b"\x00\x00\x00\x02garbage")
             elif base == "protocol":
                 fr = self._frame(conn, req, "ERROR", wire.error_body(v, "protocol", "simulated protocol error tag=%s" % tag))
+            elif base == "protocol-unsupported":
+                self.counts["unsupported"] += 1
+                fr = self._frame(conn, req, "ERROR", wire.error_body(v, "protocol", UNSUPPORTED_TEXT + " tag=%s" % tag))
             else:
                 hdr = wire.frame(v, req["stream"], "RESULT", b"")
                 fr = hdr[:-4] + struct.pack(">i", -1)
@@ -493,13 +514,25 @@ class Machine(object):
             return None
         conn = conns[i % len(conns)]
         self.counts["kills"] += 1
+        self.injected.append((conn, how))
         if how == "close":
             self.net.server_close(conn)
+        elif how == "eof":
+            self.counts["eof"] += 1
+            self.net.server_close(conn, eof=True)
         elif how == "reset":
             self.net.socket_error(conn)
         else:
             self.sim.spawn(conn.close)
         return conn
+
+    def use(self, i):
+        """switch the session's keyspace (USE through the session: every pool then sets it on its connections)"""
+        ks = KEYSPACES[i % len(KEYSPACES)]
+        self.counts["use"] += 1
+        if ks == self.session.keyspace:
+            self.counts["use_same"] += 1
+        self.sim.spawn(self.session.execute_async, 'USE "%s"' % ks)
 
     def renew(self):
         self.counts["renew"] += 1
@@ -557,6 +590,9 @@ class Machine(object):
             self.borrow_dead(ev[1])
         elif k == "hb_drop":
             self.hb_drop = bool(ev[1])
+        elif k == "use":
+            if not self.session_down:
+                self.use(ev[1])
         else:
             raise ValueError("unknown event %r" % (ev,))
 
@@ -615,7 +651,7 @@ class Machine(object):
         case = self.case
         ctx.label("pv=%d" % case["pv"], "mif=%d" % min(case["mif"], 9), "thr=%d" % min(case["thr"], 4),
                   "convict" if case.get("convict", True) else "no-convict")
-        for k in ("late", "kills", "failures", "renew", "dead_borrows", "dropped"):
+        for k in ("late", "kills", "failures", "renew", "dead_borrows", "dropped", "eof", "unsupported", "use", "use_same"):
             if c[k]:
                 ctx.label("has:" + k)
         if self.session_down:
@@ -647,7 +683,7 @@ WEIGHTS = {
     "c09": dict(send=7, normal=6, adv_short=4, adv_long=1, err=1, drop=1, fail=1, kill=1, fails=[0, 0, 0, 1, 1, 2]),
     "c10": dict(send=7, normal=2, adv_short=2, adv_long=0, err=1, drop=0, fail=3, kill=2, fails=[1, 1, 2, 3]),
     "c12": dict(send=7, normal=4, adv_short=3, adv_long=2, err=1, drop=1, fail=1, kill=1, refuse=1, delay=1, renew=1,
-                sshut=1, bdead=1, fails=[0, 1, 1, 2, 3]),
+                sshut=1, bdead=1, use=2, fails=[0, 1, 1, 2, 3]),
     "c13": dict(send=8, normal=4, adv_short=6, adv_long=1, err=1, drop=0, fail=1, kill=1, refuse=1, delay=1,
                 fails=[0, 0, 1]),
 }
@@ -705,7 +741,7 @@ def s_history(st, draw, profile, n, fail_kinds=None):
             # busy-wait (closed + threshold => re-read self._connection, which is still the closed one) for its whole
             # 2 s timeout -- two million iterations of virtual microseconds
             events.append(["kill", draw(st.integers(0, 2)),
-                           draw(st.sampled_from(["close", "reset", "explicit"] if profile == "c10" else ["close", "reset"]))])
+                           draw(st.sampled_from(["close", "reset", "eof", "explicit"] if profile == "c10" else ["close", "reset", "eof"]))])
             out = 0
         elif k == "adv_short":
             events.append(["advance", draw(st.sampled_from([0.05, 0.35, 0.35, 0.75, 1.1]))])
@@ -722,6 +758,8 @@ def s_history(st, draw, profile, n, fail_kinds=None):
             down = True
         elif k == "bdead":
             events.append(["borrow_dead", draw(st.integers(0, 2))])
+        elif k == "use":
+            events.append(["use", draw(st.sampled_from([0, 0, 1]))])
     return events
 
 
